@@ -115,7 +115,7 @@ class TexttableCompuMethod(CompuMethod):
         if scale.compu_const.value is not None:
             return scale.compu_const.value
 
-        odxraise(f"Texttable compu method could not decode '{internal_value!r}'.", EncodeError)
+        odxraise(f"Texttable compu method could not decode '{internal_value!r}'.", DecodeError)
 
     def is_valid_physical_value(self, physical_value: AtomicOdxType) -> bool:
         if self._compu_internal_default_value is not None:
